@@ -378,6 +378,18 @@ example :
     (((Writer.runWrites cw w0 [[1, 2, 0], [0, 5]]).Close cw).2.isNone) = true := by
   decide +kernel
 
+set_option maxRecDepth 200000 in
+/-- … and `rac_roundtrip` applied to that session: its file passes the spec reader's validation and decodes
+to the five written bytes (the theorem instantiated, not re-computed) -/
+example :
+    let w0 : Writer := { dChunkSizeCfg := 2, indexAtStart := true, tempKind := 1, cPageSize := 8 }
+    Spec.validate (fileOf ((Writer.runWrites toyCodecW w0 [[1, 2, 0], [0, 5]]).Close toyCodecW).1) = true ∧
+    Spec.decode (fileOf ((Writer.runWrites toyCodecW w0 [[1, 2, 0], [0, 5]]).Close toyCodecW).1)
+      (fun _ p _ _ => udec p) = .ok [1, 2, 0, 0, 5] :=
+  rac_roundtrip toyCodecW udec toy_contract udec_prefix toy_notZeroes
+    { dChunkSizeCfg := 2, indexAtStart := true, tempKind := 1, cPageSize := 8 } ⟨rfl, rfl, rfl, rfl, rfl⟩
+    [[1, 2, 0], [0, 5]] (by decide +kernel)
+
 /-- non-vacuity of the extra codec hypothesis: the harness codec never names "Zeroes" when it runs under a
 non-zero short codec number -/
 example (p q : Bytes) (rs : List Bytes) (out : CompressOut)
